@@ -6,6 +6,7 @@ sys.path.insert(0, V)
 props = [json.loads(l) for l in open(os.path.join(V, 'properties.jsonl'))]
 na = json.load(open(os.path.join(V, 'tools', 'not_applicable.json')))
 meta = json.load(open(os.path.join(V, 'tools', 'claims.json')))
+kf = json.load(open(os.path.join(V, 'known_findings.json')))
 checks = []
 for p in props:
     pid = p['id']
@@ -20,7 +21,10 @@ for p in props:
         replay_cmd_template='./check %s --replay {path}' % pid,
         engine='pyvc',
         level_claimed=dict(category=m.get('category', 'proof'), text=m.get('text', ''), design_ref=m.get('design_ref', 'DESIGN.md 6 ' + pid)),
-        level_note=m.get('note', ''),
+        level_note=(m.get('note', '') + ' Recorded (open) findings of this property, each reproduced against the real code and reported as '
+                    'KNOWN-FINDING by the check: ' + (', '.join(sorted(f['id'] for f in kf if f['property'] == pid and f['status'] == 'finding')) or 'none')
+                    + '. Repaired by fix: commits: ' + (', '.join(sorted({f['status'].split(': ')[1] for f in kf if f['property'] == pid and
+                                                                          f['status'].startswith('fixed')})) or 'none') + '.').strip(),
         technique=m.get('technique', 'contract-based deductive verification: VCs generated from the AST of the real functions (pyvc), discharged by z3/cvc5'),
     ))
 claimed = {c['property_id'] for c in checks}
